@@ -795,6 +795,28 @@ pub fn synth_no_move_position(rng: &mut Rng, tries: usize) -> Option<Board> {
             let s = near(rng, ks, 2);
             if d.sq[s].is_none() { d.sq[s] = Some(([Piece::Knight, Piece::Knight, Piece::Bishop][rng.below(3)], c)); }
         }
+        // box the knights: every square a c-knight could jump to gets an own blocked pawn (an o pawn
+        // right in front of it) where that is possible
+        if rng.chance(2, 3) {
+            let offs = [(1i32, 2i32), (2, 1), (-1, 2), (-2, 1), (1, -2), (2, -1), (-1, -2), (-2, -1)];
+            for s in 0..64usize {
+                if d.sq[s] != Some((Piece::Knight, c)) { continue; }
+                for (dr, df) in offs.iter() {
+                    let (r, f) = ((s / 8) as i32 + dr, (s % 8) as i32 + df);
+                    if r < 0 || r >= 8 || f < 0 || f >= 8 { continue; }
+                    let t = (r * 8 + f) as usize;
+                    if d.sq[t].is_some() { continue; }
+                    // pawn of c on t, o pawn one step further in c's direction
+                    let ahead = if white { t + 8 } else { t.wrapping_sub(8) };
+                    if t >= 8 && t < 56 && ahead < 64 && ahead >= 8 && ahead < 56 && d.sq[ahead].is_none() {
+                        d.sq[t] = Some((Piece::Pawn, c));
+                        d.sq[ahead] = Some((Piece::Pawn, o));
+                    } else if d.sq[t].is_none() && rng.chance(1, 2) {
+                        // a bishop of c hemmed in is too much to ask: leave the square; the candidate may fail
+                    }
+                }
+            }
+        }
         // o: king and one to three pieces taking away the squares around c's king
         let oks = near(rng, ks, 3);
         if d.sq[oks].is_none() { d.sq[oks] = Some((Piece::King, o)); } else { continue; }
